@@ -237,6 +237,13 @@ def _work(chunk):
 
 
 def part(rep, pid, tier='quick'):
+    from vlib import callhelpers
+    with callhelpers.table_dir():
+        callhelpers.custom_athlon_table()
+        return _part(rep, pid, tier)
+
+
+def _part(rep, pid, tier='quick'):
     evs, first_age = events()
     if pid == 'C15':
         # C15 is about distances that are not tabulated: its groups are such codes only (the tabulated rows are C14's)
